@@ -229,7 +229,11 @@ def create_configured_connection(database: str = ":memory:") -> duckdb.DuckDBPyC
     conn = duckdb.connect(
         database, config={"storage_compatibility_version": STORAGE_COMPATIBILITY_VERSION}
     )
-    configure_duckdb_connection(conn)
+    try:
+        configure_duckdb_connection(conn)
+    except BaseException:
+        conn.close()
+        raise
     return conn
 
 
@@ -240,20 +244,22 @@ def configured_connection(database: str = ":memory:") -> Iterator[duckdb.DuckDBP
     Path(temp_dir).mkdir(parents=True, exist_ok=True)
     _verif.event("conn:mkdir_session")
     session_dir = Path(temp_dir) / f"duckdb_tmp_{uuid.uuid4().hex}"
-    session_dir.mkdir(exist_ok=True)
-
-    if database == ":memory:" and not _use_in_memory_db():
-        database = str(session_dir / "session.duckdb")
-
-    _verif.event("conn:connect")
-    conn = create_configured_connection(database)
-    _verif.event("conn:set_session_temp")
-    conn.execute(f"SET temp_directory = '{session_dir}'")
+    conn: Optional[duckdb.DuckDBPyConnection] = None
     try:
+        session_dir.mkdir(exist_ok=True)
+
+        if database == ":memory:" and not _use_in_memory_db():
+            database = str(session_dir / "session.duckdb")
+
+        _verif.event("conn:connect")
+        conn = create_configured_connection(database)
+        _verif.event("conn:set_session_temp")
+        conn.execute(f"SET temp_directory = '{session_dir}'")
         yield conn
     finally:
         try:
-            conn.close()
+            if conn is not None:
+                conn.close()
         finally:
             shutil.rmtree(session_dir, ignore_errors=True)
 
